@@ -173,7 +173,7 @@ func propC09(a *Analysis, r *Registry) {
 			rv := S.MakeFn("tuple", r0, r1)
 			x, i := fc.elemOf(rv, env.MustParse("xs"))
 			env.Set("x", x, nil)
-			b.FullScan("C-scan coverage", "stats.Bounds/visits-all", b.pos(fn), fc, i, env.MustParse("len(xs)"))
+			b.FullScanSeeded("C-scan coverage", "stats.Bounds/visits-all", b.pos(fn), fc, i, env.MustParse("len(xs)")) // min/max start at xs[0]
 			vars := b.LoopSystem(rB, "stats.Bounds/recurrence", b.pos(fn), fc, rv, env, []recSpec{
 				{"mn", "xs[0]", "ite(x<mn, x, mn)"}, {"mx", "xs[0]", "ite(mx<x, x, mx)"}})
 			if vars != nil {
@@ -287,113 +287,130 @@ func propC09(a *Analysis, r *Registry) {
 	// weighted Bounds on sorted data: both scans cover every index and pair weight and value at the same index
 	if fn := b.Fn("C-scan coverage", "stats.(Sample).Bounds"); fn != nil {
 		b.guard("C-scan coverage", "stats.(Sample).Bounds/sorted-weighted", func() {
+			// On sorted weighted data the minimum is the value at the first non-zero weight and the
+			// maximum the value at the last one. Decided on the values returned, wherever the scans
+			// live and however they are written: each result is s.Xs[e] for an index e that (1) starts
+			// at the proper end (0 / len-1), (2) moves by one per iteration, and (3) is advanced only
+			// past zero weights at that same index (the loop continues only while s.Weights[e] == 0).
 			env := X.EnvFor(fn, "s")
 			fc := X.Under(fn, X.AssumeEq(env.MustParse("s.Sorted"), S.True()), X.AssumeCond(env.MustParse("s.Weights==nil"), false),
 				X.AssumeCond(env.MustParse("len(s.Xs)==0"), false))
-			// the scans may live in Bounds itself or in a helper it delegates to on this path
-			top := fc
-			for _, c := range top.BoundCallees(2) {
-				if len(c.Ctx.Loops()) == 2 {
-					fc = c
-					break
+			xs, ws := env.MustParse("s.Xs"), env.MustParse("s.Weights")
+			for ri, dir := range []string{"forward", "backward"} {
+				construct := "stats.(Sample).Bounds/sorted-weighted/" + dir
+				ri := ri
+				v := fc.gatedReturns(fn.Blocks[0], 0, func(rt *ssa.Return) *RF { return fc.Val(rt.Results[ri]) })
+				if v == nil {
+					r.Undecided("C-scan coverage", construct, b.pos(fn), "returned value not computable")
+					continue
 				}
-			}
-			fn := fc.Fn
-			loops := fc.Ctx.Loops()
-			if len(loops) != 2 {
-				r.Fail("C-scan coverage", "stats.(Sample).Bounds/sorted-weighted", b.pos(top.Fn), "expected a forward and a backward scan over the weights")
-				return
-			}
-			dirs := map[string]bool{}
-			for li, l := range loops {
-				construct := "stats.(Sample).Bounds/sorted-weighted/scan#" + itoa(li+1)
-				// the weight tested and the value taken
-				var wIdx, xIdx *RF
-				for bi := range l.Body {
-					for _, in := range fn.Blocks[bi].Instrs {
-						if ifi, ok := in.(*ssa.If); ok {
-							if c := fc.Val(ifi.Cond).SingleAtom(); c != nil && c.Name == "cmp!=" {
-								for _, sd := range c.Args {
-									if at := sd.SingleAtom(); at != nil && at.Name == "idx" && at.Args[0].Equal(env.MustParse("s.Weights")) {
-										wIdx = at.Args[1]
-									}
-								}
+				v = fc.Sub(v)
+				// a value merged at a loop's exits (taken at a break, or the initial value otherwise)
+				// stands for any of its alternatives
+				var idxs []*Atom
+				seen := map[AtomID]bool{}
+				var collect func(v *RF, depth int)
+				collect = func(v *RF, depth int) {
+					if at := v.SingleAtom(); at != nil && at.Name == "ite" && len(at.Args) == 3 {
+						collect(at.Args[1], depth) // the alternatives, not the conditions selecting them
+						collect(at.Args[2], depth)
+						return
+					}
+					idxs = append(idxs, FindFn(v, "idx")...)
+					if depth > 6 {
+						return
+					}
+					for _, at := range v.Atoms(true) {
+						ph, ok := X.phiOf[at.ID]
+						if !ok || seen[at.ID] {
+							continue
+						}
+						seen[at.ID] = true
+						pfc := X.phiFC[at.ID]
+						isHeader := false
+						vals, preds := pfc.Ctx.PhiLiveEdges(ph)
+						for _, pr := range preds {
+							if pfc.Ctx.Dominates(ph.Block(), pr) {
+								isHeader = true
 							}
+						}
+						if isHeader {
+							continue
+						}
+						for _, pv := range vals {
+							collect(pfc.Sub(pfc.Val(pv)), depth+1)
 						}
 					}
 				}
-				// value: taken on the true edge of that test (the break path leaves the loop)
-				for bi := range l.Body {
-					blk := fn.Blocks[bi]
-					ifi, ok := blk.Instrs[len(blk.Instrs)-1].(*ssa.If)
-					if !ok {
+				collect(v, 0)
+				if len(idxs) == 0 {
+					collect(X.ExpandCalls(v), 0) // the scans delegated to a helper with several returns
+				}
+				var es []*RF
+				for _, at := range idxs {
+					if !at.Args[0].Equal(xs) {
 						continue
 					}
-					if c := fc.Val(ifi.Cond).SingleAtom(); c == nil || c.Name != "cmp!=" {
-						continue
-					}
-					for _, in := range blk.Succs[0].Instrs {
-						if u, ok := in.(*ssa.UnOp); ok {
-							if at := fc.Val(u).SingleAtom(); at != nil && at.Name == "idx" && at.Args[0].Equal(env.MustParse("s.Xs")) {
-								xIdx = at.Args[1]
-							}
+					dup := false
+					for _, e := range es {
+						if e.Equal(at.Args[1]) {
+							dup = true
 						}
 					}
+					if !dup {
+						es = append(es, at.Args[1])
+					}
 				}
-				if wIdx == nil || xIdx == nil {
-					r.Fail("C-scan coverage", construct, b.pos(fn), "scan does not test a weight and take the value")
+				if len(es) != 1 {
+					r.Fail("C-scan coverage", construct, b.pos(fn), "the "+map[int]string{0: "minimum", 1: "maximum"}[ri]+" is not the value at one scanned index: "+clip(v.String(), 200))
 					continue
 				}
-				if !wIdx.Equal(xIdx) {
-					r.Fail("C-scan coverage", construct, b.pos(fn), "weight tested at index "+clip(wIdx.String(), 80)+" but value taken at "+clip(xIdx.String(), 80))
+				e := es[0]
+				var k *RF
+				for _, ph := range fc.loopPhis(e) {
+					if d, isC := e.Sub(ph).IsConst(); isC && d.IsInt() {
+						k = ph
+					} else if d, isC := e.Add(ph).Sub(S.MakeFn("len", ws)).IsConst(); isC && d.IsInt() {
+						k = ph // an index counted from the end: len-1-k
+					} else if d, isC := e.Add(ph).Sub(S.MakeFn("len", xs)).IsConst(); isC && d.IsInt() {
+						k = ph
+					}
+				}
+				if k == nil {
+					r.Fail("C-scan coverage", construct, b.pos(fn), "the index "+clip(e.String(), 100)+" is not driven by one loop counter")
 					continue
 				}
-				// the loop counter and its range
-				phs := fc.loopPhis(wIdx)
-				if len(phs) != 1 {
-					r.Fail("C-scan coverage", construct, b.pos(fn), "scan index is not a function of one loop counter")
+				kat := k.SingleAtom()
+				kfc := X.phiFC[kat.ID]
+				ki, kn := kfc.Recurrence(k)
+				first := e.Subst(map[AtomID]*RF{kat.ID: ki})
+				step := e.Subst(map[AtomID]*RF{kat.ID: kn}).Sub(e)
+				wantFirst, wantStep := S.Int(0), S.Int(1)
+				if dir == "backward" {
+					wantStep = S.Int(-1)
+				}
+				okFirst := first.Equal(wantFirst)
+				if dir == "backward" {
+					okFirst = first.Equal(S.MakeFn("len", ws).Sub(S.Int(1))) || first.Equal(S.MakeFn("len", xs).Sub(S.Int(1)))
+				}
+				if !okFirst || !step.Equal(wantStep) {
+					r.Fail("C-scan coverage", construct, b.pos(fn), "the "+dir+" scan starts at "+clip(first.String(), 60)+" and moves by "+clip(step.String(), 20)+" (expected the "+map[string]string{"forward": "first", "backward": "last"}[dir]+" index, one step at a time)")
 					continue
 				}
-				k := phs[0]
-				ki, kn := fc.Recurrence(k)
-				hdr := X.phiOf[k.SingleAtom().ID].Block()
-				ifi, ok := hdr.Instrs[len(hdr.Instrs)-1].(*ssa.If)
-				if !ok {
-					r.Fail("C-scan coverage", construct, b.pos(fn), "scan loop has no bound test")
-					continue
+				// continuation condition: header → back edge
+				hdr := X.phiOf[kat.ID].Block()
+				cont := S.False()
+				for _, p := range kfc.Ctx.LivePreds(hdr) {
+					if kfc.Ctx.Dominates(hdr, p) {
+						cont = S.Or(cont, S.And(kfc.ReachCondFrom(hdr, p), kfc.edgeCond(p, hdr)))
+					}
 				}
-				cond := fc.Val(ifi.Cond)
-				e := X.EnvFor(top.Fn, "s")
-				e.Set("k", k, nil)
-				n := "len(s.Weights)"
-				var first, last *RF // counter values of the first and last iteration, as substitutions for k
-				switch {
-				case ki.Equal(e.MustParse("-1")) && kn.Equal(e.MustParse("k+1")) && cond.Equal(e.MustParse("k+1<"+n)):
-					first, last = e.MustParse("-1"), e.MustParse(n+"-2") // index uses k+1
-				case ki.Equal(e.MustParse("0")) && kn.Equal(e.MustParse("k+1")) && cond.Equal(e.MustParse("k<"+n)):
-					first, last = e.MustParse("0"), e.MustParse(n+"-1")
-				case ki.Equal(e.MustParse(n+"-1")) && kn.Equal(e.MustParse("k-1")) && cond.Equal(e.MustParse("0<=k")):
-					first, last = e.MustParse(n+"-1"), e.MustParse("0")
-				default:
-					r.Fail("C-scan coverage", construct, a.W.InstrPos(ifi), "scan counter does not run over all of 0..len(Weights)-1: init "+clip(ki.String(), 60)+", step "+clip(kn.String(), 60)+", while "+clip(cond.String(), 100))
-					continue
+				wz := S.Cmp("==", S.MakeFn("idx", ws, e), S.Int(0))
+				if X.EvalCond(wz, []Assumption{{Cond: cont, True: true}}) == True {
+					r.OK("C-scan coverage", construct, b.pos(fn), "value taken at an index that starts at the "+map[string]string{"forward": "first", "backward": "last"}[dir]+" element and is advanced only past zero weights at that index")
+				} else {
+					r.Fail("C-scan coverage", construct, b.pos(fn), "the "+dir+" scan does not advance exactly past zero weights: it continues while "+clip(cont.String(), 200))
 				}
-				at0 := wIdx.Subst(map[AtomID]*RF{k.SingleAtom().ID: first})
-				at1 := wIdx.Subst(map[AtomID]*RF{k.SingleAtom().ID: last})
-				lo, hi := e.MustParse("0"), e.MustParse(n+"-1")
-				switch {
-				case at0.Equal(lo) && at1.Equal(hi):
-					dirs["forward"] = true
-					r.OK("C-scan coverage", construct, a.W.InstrPos(ifi), "forward scan visits indices 0..len-1, weight and value at the same index")
-				case at0.Equal(hi) && at1.Equal(lo):
-					dirs["backward"] = true
-					r.OK("C-scan coverage", construct, a.W.InstrPos(ifi), "backward scan visits indices len-1..0, weight and value at the same index")
-				default:
-					r.Fail("C-scan coverage", construct, a.W.InstrPos(ifi), "scan visits "+clip(at0.String(), 60)+" .. "+clip(at1.String(), 60)+", not the whole index range")
-				}
-			}
-			if !(dirs["forward"] && dirs["backward"]) {
-				r.Fail("C-scan coverage", "stats.(Sample).Bounds/sorted-weighted", b.pos(fn), "need one forward scan (min) and one backward scan (max)")
 			}
 		})
 	}
